@@ -385,6 +385,7 @@ def _fresh_reference(op: dict[str, Any], data: bytes, hashseed: int,
     with open(path, "wb") as fh:
         fh.write(data)
     req = {"path": path, "select": op.get("select"), "via": op.get("via"),
+           "logging_off": bool(op.get("logging_off")),
            "reader": op.get("reader"), "newline": op.get("newline"), "encoding": op.get("encoding")}
     p = subprocess.run([env.PYTHON, "-m", "detsim.freshref"], input=json.dumps(req).encode("utf-8"),
                        capture_output=True, timeout=120,
